@@ -10,7 +10,9 @@ import zlib
 ID = "C06"
 PROPS = "Props/C06.v"
 RULE = ("pd-shapes: every (start month/day, end month/day) of seed-rotated year pairs covering the leap patterns, with and without a "
-        "time-of-day borrow (sampled to ~1e5 in quick, exhaustive over 6 year pairs in thorough); random ordered pairs over years 1..9999 as "
+        "time-of-day borrow (sampled to ~1e5 in quick, exhaustive over 6 year pairs in thorough); pd-month-arm / interval-month-arm: every shape of "
+        "the region of the repaired finding exact-month-arm (day borrow equal to the month-length difference, start day not the end of the "
+        "previous month) for four year pairs, with and without a time borrow (~10k, deterministic); random ordered pairs over years 1..9999 as "
         "naive / UTC / fixed-offset / Date operands; cross-zone pairs (different fixed offsets incl. :30/:45, month-boundary shifts); "
         "pendulum Interval objects (naive, UTC, fixed, Date, differently named zones) with a + (b - a), add(**components), the reversed interval, "
         "in_months; direct add()/add_duration with random signed components. Each pd case calls the backend helper in both directions and the "
@@ -170,6 +172,26 @@ def cases(tier, seed):
         kind = "date" if rnd.random() < 0.08 else "dt"
         tz = rnd.choice([None, None, ["utc"], ["fixed", rnd.choice(OFFSETS)]])
         out.append({"stream": "pd-shapes", "fn": "pd", "args": [_mk(kind, [y1, m1, d1], t1, tz), _mk(kind, [y2, m2, d2], t2, tz)]})
+    # ---- the region of the (repaired) finding exact-month-arm, deterministic and complete for four year pairs: every shape with a day
+    #      borrow whose borrowed day difference equals dim(end month) - dim(month before) while the start day is not the last day of
+    #      that month before — with and without a time-of-day borrow; the two historical witnesses first.  Every tenth shape also as an Interval.
+    arm = [((2021, 5, 2), [0, 0, 0, 0], (2021, 6, 1), [0, 0, 0, 0]), ((2021, 1, 30), [0, 0, 0, 0], (2021, 2, 27), [0, 0, 0, 0])]
+    for (y1, y2) in [(2019, 2019), (2020, 2020), (2019, 2020), (2020, 2021)]:
+        for m1 in range(1, 13):
+            for d1 in range(1, calendar.monthrange(y1, m1)[1] + 1):
+                for m2 in range(1, 13):
+                    for d2 in range(1, calendar.monthrange(y2, m2)[1] + 1):
+                        if (y1, m1, d1) < (y2, m2, d2):
+                            for t1, t2 in (([0, 0, 0, 0], [0, 0, 0, 0]), ([12, 30, 15, 500], [12, 30, 15, 499])):
+                                if _month_arm_region([y1, m1, d1] + t1, [y2, m2, d2] + t2):
+                                    arm.append(((y1, m1, d1), t1, (y2, m2, d2), t2))
+    for i, (s1, t1, s2, t2) in enumerate(arm):
+        kind = "date" if (t1 == t2 and i % 7 == 3) else "dt"
+        tz = [None, ["utc"], None, ["fixed", 3600]][i % 4] if kind == "dt" else None
+        out.append({"stream": "pd-month-arm", "fn": "pd", "args": [_mk(kind, list(s1), list(t1), tz), _mk(kind, list(s2), list(t2), tz)]})
+        if i < 2 or i % 10 == 0:
+            tzp = [None, ["putc"], ["pfixed", 3600]][i % 3] if kind == "dt" else None
+            out.append({"stream": "interval-month-arm", "fn": "iv", "args": [_mk(kind, list(s1), list(t1), tzp), _mk(kind, list(s2), list(t2), tzp)]})
     # ---- random pairs over years 1..9999
     n = 15000 if quick else 200000
     for _ in range(n):
@@ -685,10 +707,13 @@ def known(c, backend, r):
 
 
 LEVEL_TEXT = ("Machine-checked Coq theorems about the pure-Python precise_diff (translated from /repo on every run) and the hand model of the Rust "
-              "precise_diff: component ranges, rebuilding the end with add_duration (translated), negation of the reversed call, in_months, and "
-              "equality of the two backends, for every pair of dates/datetimes with zero offset (naive, UTC, Date) and no bound on the years; "
-              "the defective region is characterised exactly (refuted + partial theorems).")
+              "precise_diff: component ranges, rebuilding the end with add_duration (translated) at full strength — a + (b - a) = b for every "
+              "ordered pair of datetimes with zero offset (naive, UTC) or dates, every year 1..9999, both backends (pd_rebuild, pd_rust_rebuild; "
+              "finding exact-month-arm is repaired, its region is now an ordinary deterministic stream), the same through the hand model of the "
+              "Interval component properties and DateTime.add / Date.add (iv_rebuild, iv_rust_rebuild), in_months, and equality of the two "
+              "backends on that domain; the remaining Rust-only cross-zone defect is characterised by a refuted theorem.")
 DESIGN_REF = "DESIGN.md section 4 C06"
 LEVEL_NOTE = ("Trusted: Coq kernel+VM, the translator, the primitives of Model/PdBase.v as a model of CPython datetime, the hand models of the Rust helper "
               "and of the Interval glue (validated by correspondence every run), extraction+driver (cross-checked with vm_compute).")
-TECHNIQUE = "Coq proof (lia over the borrow chain, calendar lemmas lifted from Spec/Cal) over translated code; differential correspondence; stdlib oracle"
+TECHNIQUE = ("Coq proof (lia over the borrow chain and the month-length branch; rebuild by calendar lemmas over Spec/Cal: ymd2ord linear in the day, "
+             "one-month step) over translated code; differential correspondence; stdlib oracle")
